@@ -71,6 +71,7 @@ type Action struct {
 	Silent  bool    // do not answer at all (saved request)
 	saved   *go9p.SrvReq
 	Partial int // Walk: answer only this many qids (when >0)
+	Direct  bool // Read: build the reply in req.Rc with InitRread/SetRreadCount and call Respond (as Ufs does)
 }
 
 type reqKey struct {
@@ -96,11 +97,12 @@ type FS struct {
 	AuthInitErr  string
 	ErrAll       map[string]string // op name -> error (implementation failure injection)
 	destroyed    map[int]int       // token -> times destroyed
+	cancelled    map[*go9p.SrvReq]bool // requests this implementation cancelled through FlushOp
 	Saved        []*go9p.SrvReq
 }
 
 func NewFS() *FS {
-	fs := &FS{Script: map[reqKey]*Action{}, tagOcc: map[[2]int]int{}, conns: map[*go9p.Conn]int{}, occOf: map[*go9p.SrvReq]int{}, destroyed: map[int]int{}, ErrAll: map[string]string{}, AuthCheckErr: map[uint32]string{}}
+	fs := &FS{Script: map[reqKey]*Action{}, tagOcc: map[[2]int]int{}, conns: map[*go9p.Conn]int{}, occOf: map[*go9p.SrvReq]int{}, destroyed: map[int]int{}, cancelled: map[*go9p.SrvReq]bool{}, ErrAll: map[string]string{}, AuthCheckErr: map[uint32]string{}}
 	fs.root = &node{name: "/", dir: true, path: 1, children: map[string]*node{}}
 	fs.nextPath = 2
 	d := fs.add(fs.root, "d", true)
@@ -272,6 +274,13 @@ func (fs *FS) Walk(req *go9p.SrvReq) {
 			break
 		}
 	}
+	if fs.cancelled[req] {
+		// cancelled while parked: the framework has taken the fids back; only the
+		// (late, to be ignored) answer remains
+		fs.resp(req, fmt.Sprintf("Rwalk %v", qids))
+		req.RespondRwalk(qids)
+		return
+	}
 	if len(qids) == len(req.Tc.Wname) {
 		if req.Newfid == req.Fid {
 			src.node = n
@@ -361,6 +370,17 @@ func (fs *FS) Read(req *go9p.SrvReq) {
 	}
 	d := readData(req.Tc.Tag, req.Tc.Fid, req.Tc.Offset, req.Tc.Count)
 	fs.resp(req, fmt.Sprintf("Rread %x", d))
+	if a.Direct {
+		rc := req.Rc
+		if err := go9p.InitRread(rc, req.Tc.Count); err != nil {
+			req.RespondError(err)
+			return
+		}
+		n := copy(rc.Data, d)
+		go9p.SetRreadCount(rc, uint32(n))
+		req.Respond()
+		return
+	}
 	req.RespondRread(d)
 	if a.Twice {
 		fs.fail(req, "second answer")
@@ -508,7 +528,9 @@ type FSFlush struct{ *FS }
 func (fs FSFlush) Flush(req *go9p.SrvReq) {
 	ci := fs.connIdx(req.Conn)
 	fs.Log = append(fs.Log, Entry{Seq: vs.Seq(), Kind: "flush", Conn: ci, Tag: req.Tc.Tag, Occ: fs.occOf[req]})
-	if fs.FlushMode == "cancel" {
+	// an implementation can only cancel what it has been handed
+	if _, seen := fs.occOf[req]; fs.FlushMode == "cancel" && seen {
+		fs.cancelled[req] = true
 		req.Flush()
 	}
 }
